@@ -41,6 +41,9 @@ def spec_items(tier):
     R3 = [F(-1), F(0), F(1)]
     G = [F(1, 2), F(9, 10), F(1)]
     yield from build.enum_mdps(1, AS, 0, R3, [(), (0,)], build.INIT_MENU[1], G, nonpositive_when_undiscounted=False)
+    # fans and corridors only: probabilities of 1e-6 / 1e-9 are below the resolution of the planner's own 1e-10 tie tests
+    yield from (it for it in build.edge_mdps() if it[5] > 0 and not any(p not in (0, 1) and (p < F(1, 100) or p > F(99, 100))
+                                                                for row in it[2] for _, d, _ in row for _, p in d))
     if tier == 'quick':
         yield from build.enum_mdps(2, AS, 1, R3, [(), (1,)], [build.INIT_MENU[2][2]], [F(9, 10), F(1)],
                                    nonpositive_when_undiscounted=False)
